@@ -356,6 +356,9 @@ func tempDir() string {
 	if st, err := os.Stat("/dev/shm"); err == nil && st.IsDir() {
 		base = "/dev/shm"
 	}
+	if b := os.Getenv("VERIF_SHM"); b != "" {
+		base = b
+	}
 	d, err := os.MkdirTemp(base, "verif-membership-")
 	if err != nil {
 		panic(err)
